@@ -552,8 +552,48 @@ def rule_r7(chk, facts, P):
         raise AnalysisBroken('queueing out-processors not found')
 
 
+def rule_r8(chk, facts, P):
+    chk.rule('C11-R8', 'ExpandMacro(): an argument behind the last formal parameter is appended to the expansion\'s argument '
+             'list whatever its text is - the append is not reached only through a test that finds the argument non-empty '
+             '(SHIFT, ARGCOUNT and ALLARGS walk that list; an empty excess argument is an argument)', min_instances=1)
+    f = facts.func('as.c', 'ExpandMacro')
+    n = 0
+    for b, i, ln, c in f.calls('AddStringListLast'):
+        if not (c[2] and any(isinstance(m, (list, tuple)) and m and m[0] == 'm' and m[2].endswith('.Params') for m in walk(c[2][0]))):
+            continue
+        src = nocast(c[2][1]) if len(c[2]) > 1 else None
+        if src is None or not any(isinstance(m, (list, tuple)) and m and m[0] in ('g', 'gs') and m[1] == 'ArgStr' for m in walk(src)):
+            continue
+        n += 1
+
+        def text_of_arg(x):
+            x = nocast(x)
+            if x == src:
+                return True
+            if x[0] == 'u' and x[1] == '*' and nocast(x[2]) == src:
+                return True
+            if x[0] == 'i' and nocast(x[1]) == src:
+                return True
+            if x[0] == 'call' and callee_name(x) == 'strlen' and x[2] and nocast(x[2][0]) == src:
+                return True
+            return False
+
+        def nonempty(l):
+            return edge_has_atom(l, lambda a: (a[0] == 'nz' and text_of_arg(a[1])) or
+                                 (a[0] == 'cmp' and text_of_arg(a[2]) and const_val(a[3]) == 0 and a[1] in ('>', '!=')))
+        dom, w = f.guarded(b, i, nonempty)
+        ok = not dom
+        chk.ob('C11-R8', 'as.c:ExpandMacro:excess-argument-append', ok, f.loc(ln),
+               'reached also for an empty argument' if ok else
+               'the append is only reached after a test found %s non-empty: empty arguments behind the formal parameters '
+               'are dropped, so SHIFT moves a later argument into their place and ARGCOUNT is too small' % show(src))
+    if not n:
+        raise AnalysisBroken('ExpandMacro: append of excess arguments not found')
+
+
 def run(chk, facts, info):
     P = facts.program('asl')
+    rule_r8(chk, facts, P)
     rule_r1(chk, facts, P)
     rule_r2(chk, facts, P)
     rule_r3(chk, facts, P)
